@@ -691,7 +691,9 @@ RG_CONTRACTS = [
              self_fields=RG_SELF, modifies=["_transit_receiver"], raises={"AttributeError": None, "WormholeError": None},
              ensures=[("a-transit-receiver-exists", "self._transit_receiver is not None"),
                       ("an-existing-one-is-kept", "imp(old(self._transit_receiver) is not None, "
-                                                  "self._transit_receiver is old(self._transit_receiver))")]),
+                                                  "self._transit_receiver is old(self._transit_receiver))")],
+             internal_ensures=[("built-exactly-when-there-was-none",
+                                "ncalls('_build_transit') == ite(old(self._transit_receiver) is None, 1, 0)")]),
     Contract(f"{RECV}:Receiver._go", props=[PROP], params={"w": "obj[Wormhole]"}, self_fields=RG_SELF,
              requires=c05.CWD_OK, pre_hook=c05.bind_fs, raises={e: None for e in RGO_EXC},
              modifies=["abs_destname", "xfersize", "_transit_receiver"] + c05.FS_FIELDS,
@@ -701,7 +703,7 @@ RG_CONTRACTS = [
                  ("the-offer-parsed-is-the-peers-offer", "to_j(last_call_arg('_parse_offer', 1)) == jget(them_d, 'offer')")],
              ensures_raise={"TransferError": [
                  ("a-refused-offer-is-reported-to-the-peer-and-nothing-else-is-done",
-                  "implies(ncalls('_parse_offer') == 1 and call_seq()[-1] != '_parse_offer', call_seq()[-1] == '_send_data' and "
+                  "implies(n_refusals_handled() >= 1, call_seq()[-1] == '_send_data' and "
                   "call_seq()[-2] == '_parse_offer' and jhas(to_j(last_call_arg('_send_data', 1)), 'error'))")]},
              loops={0: {"header": "True", "modifies": [("self", "_transit_receiver")],
                         "invariant": ["ncalls('_parse_offer') == 0 and ret_seq() == call_seq()"] + c05.CWD_OK}},
@@ -726,8 +728,15 @@ def regf_rg():
     for g in ("KEY_TIMER", "VERIFY_TIMER"):
         em["global:" + RECV + ":" + g] = lambda it: it.fresh("real", "timer")
     em["global:wormhole/__init__.py:__version__"] = lambda it: it.fresh("str", "version")
+
+    def response_of(it, o):
+        """r.response of a caught RespondError (only the handler for a refused offer reads it): recorded"""
+        it.ctx.event("refusal-handled", o)
+        return it.fresh("str", "response")
+
     for e in ("RespondError", "TransferRejectedError"):
-        em[f"attr:{e}.response"] = lambda it, o: it.fresh("str", "response")
+        em[f"attr:{e}.response"] = response_of
+    reg.spec_funcs["n_refusals_handled"] = lambda it: VInt(1 if any(e[0] == "refusal-handled" for e in it.ctx.trace) else 0)
 
     def handle_welcome(it, args, kwargs, fr):
         if it.ctx.choose([z3.BoolVal(True), z3.BoolVal(True)], "handle_welcome") == 1:
